@@ -523,8 +523,34 @@ func verifProp_C15_Decode() func(*rapid.T) {
 			b = g.B
 			debug.SetPanicOnFault(true)
 		}
+		// the receiver has had a life before: it holds a non-normalised representative (Z != 1), possibly the result of group
+		// operations, and may have been CONVERTED already (anything a conversion leaves behind in the object belongs to the old value)
 		recv := NewSM2Generator()
 		c15Scale(recv, []byte{9})
+		life := gen.Pick(t, "receiver-life", "scaled", "scaled+Bytes", "scaled+GetAffineX", "sum+Bytes+GetAffineX", "infinity+Bytes", "decoded-before+Bytes", "scaled+Bytes_Unsafe")
+		switch life {
+		case "scaled+Bytes":
+			recv.Bytes()
+		case "scaled+GetAffineX":
+			recv.GetAffineX()
+		case "scaled+Bytes_Unsafe":
+			recv.Bytes_Unsafe()
+			recv.GetAffineX_Unsafe()
+		case "sum+Bytes+GetAffineX":
+			recv.Double(recv)
+			recv.Add(recv, NewSM2Generator())
+			recv.Bytes()
+			recv.GetAffineX()
+		case "infinity+Bytes":
+			recv.Add(recv, NewSM2Point().Negate(recv))
+			recv.Bytes()
+		case "decoded-before+Bytes":
+			recv.Bytes()
+			recv.SetBytes(valid)
+			recv.Double(recv)
+			recv.Bytes()
+		}
+		rec.Tally("receiver-life:" + life)
 		before := c15Raw(recv)
 		var got *SM2Point
 		var err error
